@@ -878,7 +878,7 @@ func (m *Machine) observe(s *Step) {
 	b := op.B % len(m.W.Jars)
 	m.observeMails(r.Mails)
 	// secrets typed
-	if s.Secret != "" {
+	if s.Secret != "" && (op.Src == "pw" || op.Src == "pwold" || op.Src == "lit" || op.Src == "otp" || op.Src == "rec") {
 		switch op.K {
 		case "login", "register":
 			m.KB.secret(s.Secret, "password-typed")
